@@ -464,7 +464,7 @@ def run_property(mod, tier, seed, replay=None, budget_s=None):
         wall_s=round(time.time() - t0, 2),
         violations=len(reported),
     )
-    if not replay:
+    if not replay and not os.environ.get("VERIF_NO_EVIDENCE"):
         os.makedirs(os.path.join(VERIF, "evidence"), exist_ok=True)
         with open(os.path.join(VERIF, "evidence", f"{pid}.json"), "w") as fh:
             json.dump(ev, fh, indent=1)
